@@ -1297,6 +1297,16 @@ def verify_matrix(ctx, obj, der, signer, ident, verifiers, other_verifiers=()):
     buf.free()
 
 
+OTHER_SIGNATURE_ALGORITHMS = [
+    ('rsasign-with-sm3', (1, 2, 156, 10197, 1, 504), True),
+    ('ecdsa-with-sha1', (1, 2, 840, 10045, 4, 1), False),
+    ('ecdsa-with-sha256', (1, 2, 840, 10045, 4, 3, 2), False),
+    ('ecdsa-with-sha512', (1, 2, 840, 10045, 4, 3, 4), False),
+    ('sha1WithRSAEncryption', (1, 2, 840, 113549, 1, 1, 5), False),
+    ('sha256WithRSAEncryption', (1, 2, 840, 113549, 1, 1, 11), True),
+]
+
+
 def flip_positions(rng, regs, full, budget):
     """[(label, class, byte offset, bit)] - every bit when full, otherwise stratified over the regions: all bits of both
     algorithm identifiers, of the outer / TBS headers and of each field's identifier + length octets, a share of every
@@ -1376,6 +1386,24 @@ def tamper(ctx, obj, der, parsed, verifiers, full, budget):
         r = fn(buf, n)
         ctx.check(r == 1, '%s:verify:rejected-under-issuer-key-and-id:%s' % (obj, vlabel), ret=r, phase='after-tamper', der=hx(der, 1500))
     buf.free()
+    # the outer algorithm identifier replaced as a whole by every other identifier the library's table knows (a single
+    # bit flip practically never lands on another known identifier, so the flips above only exercise "unknown algorithm")
+    sreg = [(off, ln) for label, cls, off, ln in regs if cls == 'sigalg']
+    treg = [(off, ln) for label, cls, off, ln in regs if label == 'tbs-header']
+    if sreg and treg:
+        aoff, aln = sreg[0]
+        tbs_and_before = bytes(der[treg[0][0]:aoff])
+        after = bytes(der[aoff + aln:])
+        for aname, arcs, with_null in OTHER_SIGNATURE_ALGORITHMS:
+            alg = D.sequence(D.oid(arcs), D.null()) if with_null else D.sequence(D.oid(arcs))
+            mut = D.sequence(tbs_and_before, alg, after)
+            mb = ctx.inbuf(mut)
+            for vlabel, fn, ref in verifiers:
+                r = fn(mb, len(mut))
+                ctx.check(r != 1, '%s:tamper-accepted:sigalg-substituted' % obj, verifier=vlabel, substituted=aname, original=hx(der, 2000))
+            mb.free()
+            ctx.nontrivial('tamper-alg', tag, aname)
+            counts['sigalg-substituted'] = counts.get('sigalg-substituted', 0) + 1
     for cls, k in counts.items():
         ctx.stat('flips_%s_%s' % (obj, cls), k)
     ctx.stat_max('object_bits_%s' % obj, n * 8)
